@@ -244,6 +244,7 @@ def main():
     out.append(open(os.path.join(V, 'units', 'gds_parse', 'parser_top.rs')).read())
     out.append('}')
     out.append('//@ include units/gds_parse/inversion.inc.rs')
+    out.append('//@ include units/gds_parse/inversion_top.inc.rs')
     out.append('proof fn canary_pwf(p: GdsParser) requires pwf(p), p.numread == 3 ensures false {}')
     out.append('}\nfn main() {}\n')
     open(os.path.join(V, 'units', 'gds_parse', 'unit.rs'), 'w').write('\n'.join(out))
